@@ -9,7 +9,7 @@ cd "$wt" || exit 2
 if ! git apply --3way "$patch" 2>/tmp/apply.err && ! git apply "$patch" 2>>/tmp/apply.err; then echo "PATCH DOES NOT APPLY"; tail -3 /tmp/apply.err; cd /; git -C /repo worktree remove --force "$wt"; exit 3; fi
 for id in "$@"; do
   start=$(date +%s)
-  out=$(cd /verif && VERIF_REPO="$wt" ./check "$id" --tier "$tier" 2>&1); rc=$?
+  out=$(cd /verif && VERIF_REPO="$wt" VERIF_EVIDENCE_DIR="$wt/.verif_evidence" ./check "$id" --tier "$tier" 2>&1); rc=$?
   echo "== $id rc=$rc $(( $(date +%s) - start ))s"; echo "$out" | grep -E "VIOLATION|HARNESS|KNOWN" | head -5
 done
 cd /; git -C /repo worktree remove --force "$wt"
